@@ -6,6 +6,14 @@ From Tally Require Import Lib.Str Expr.StrOps Expr.Date Expr.Syntax Expr.Funcs E
 Import ListNotations.
 Open Scope string_scope.
 
+(* decide the closed string tests of a call's function name *)
+Ltac name_tests :=
+  repeat match goal with
+         | |- context [String.eqb (lower ?s) ?t] =>
+             let b := eval vm_compute in (String.eqb (lower s) t) in
+             change (String.eqb (lower s) t) with b
+         end; cbv iota.
+
 Section Laws.
   Variable E : env.
   Notation ev := (eval E).
@@ -552,6 +560,144 @@ Section Laws.
     | Some (ReMatch (S _) None) => Val VNone
     end.
   Proof. cbn [fn_extract text_pattern]. destruct (re_search E p t) as [[| |[|n] [g|]]|]; reflexivity. Qed.
+
+  (* ---------- comprehensions over a supplemental table ---------- *)
+  Lemma sdel_sset_fresh sc k v : sget sc k = None -> sdel (sset sc k v) k = sc.
+  Proof.
+    induction sc as [|[k' v'] r IH]; cbn [sget sset sdel]; intros H.
+    - now rewrite String.eqb_refl.
+    - destruct (String.eqb k k') eqn:Ek; [discriminate|]. cbn [sdel]. rewrite Ek. f_equal. now apply IH.
+  Qed.
+
+  (* one `for var in iter if ifs...` clause whose conditions and element are functions of the loop variable
+     (they succeed and leave the scope alone), with a loop variable that shadows nothing: the consumer sees
+     exactly  map fe (filter fc items);  when it runs to the end the scope is what it was *)
+  Lemma run_loop_single {A} (step : A -> value -> sres A) id iter ifs elt sc itv items fc fe :
+    ev iter sc = (Val itv, sc) -> iter_items itv = ItItems items ->
+    sget sc (lower id) = None ->
+    (forall it, List.In it items -> eval_ifs ev ifs (sset sc (lower id) it) = (inl (fc it), sset sc (lower id) it)) ->
+    (forall it, List.In it items -> fc it = true ->
+       ev elt (sset sc (lower id) it) = (Val (fe it), sset sc (lower id) it)) ->
+    forall acc,
+      fst (run_loop ev elt step [(EName id, iter, ifs)] acc sc) = feed step acc (map fe (filter fc items)) /\
+      (forall a, feed step acc (map fe (filter fc items)) = SCont a ->
+         snd (run_loop ev elt step [(EName id, iter, ifs)] acc sc) = sc).
+  Proof.
+    intros Hiter Hitems Hfresh Hifs Helt acc.
+    cbn [run_loop]. rewrite Hiter, Hitems. clear Hiter Hitems.
+    revert acc Hifs Helt. induction items as [|it more IH]; intros acc Hifs Helt.
+    - cbn [filter map feed fst snd]. split; [reflexivity|intros; reflexivity].
+    - assert (Hin : List.In it (it :: more)) by (left; reflexivity).
+      rewrite Hfresh. rewrite (Hifs it Hin).
+      assert (IH' := fun acc => IH acc (fun x Hx => Hifs x (or_intror Hx)) (fun x Hx => Helt x (or_intror Hx))).
+      cbn [filter]. destruct (fc it) eqn:Fc.
+      + rewrite (Helt it Hin Fc). cbn [map feed].
+        destruct (step acc (fe it)) as [a'|a'|o]; cbn [fst snd].
+        * cbn [restore]. rewrite (sdel_sset_fresh sc (lower id) it Hfresh). apply IH'.
+        * split; [reflexivity|discriminate].
+        * split; [reflexivity|discriminate].
+      + cbn [restore]. rewrite (sdel_sset_fresh sc (lower id) it Hfresh). apply IH'.
+  Qed.
+
+  Lemma feed_step_list l acc : feed step_list acc l = SCont (rev l ++ acc)%list.
+  Proof.
+    revert acc. induction l as [|x r IH]; intros acc; cbn [feed step_list rev app]; [reflexivity|].
+    rewrite IH. now rewrite <- app_assoc.
+  Qed.
+
+  Lemma feed_step_any l : feed step_any false l = if existsb truthy l then SStop true else SCont false.
+  Proof. induction l as [|x r IH]; cbn [feed existsb]; [reflexivity|]. unfold step_any at 1. destruct (truthy x); cbn [orb]; [reflexivity|exact IH]. Qed.
+
+  Lemma feed_step_all l : feed step_all true l = if forallb truthy l then SCont true else SStop false.
+  Proof. induction l as [|x r IH]; cbn [feed forallb]; [reflexivity|]. unfold step_all at 1. destruct (truthy x); cbn [andb]; [exact IH|reflexivity]. Qed.
+
+  Lemma feed_step_next l : feed step_next None l = match l with [] => SCont None | x :: _ => SStop (Some x) end.
+  Proof. destruct l; reflexivity. Qed.
+
+  Lemma feed_step_sum_ints zs z0 :
+    feed step_sum (VInt z0) (map VInt zs) = SCont (VInt (fold_left Z.add zs z0)).
+  Proof. revert z0. induction zs as [|z r IH]; intros z0; cbn [feed map fold_left]; [reflexivity|]. cbn. apply IH. Qed.
+
+  Lemma eval_len a kws sc :
+    ev (ECall (EName "len") [a] kws) sc = match ev a sc with (Val v, sc1) => (wrap (py_len v), sc1) | bad => bad end.
+  Proof.
+    cbn [eval eval_call]. name_tests.
+    destruct (ev a sc) as [o sc1] eqn:Ea.
+    assert (W : wrap o = o) by (pose proof (eval_wrapped a sc) as W; rewrite Ea in W; exact W).
+    destruct o; cbn [fst snd wrap] in *; try rewrite W; reflexivity.
+  Qed.
+
+  Section Single.
+    Variables (id : string) (iter elt : pyast) (ifs : list pyast) (sc : scope) (itv : value) (items : list value)
+              (fc : value -> bool) (fe : value -> value).
+    Hypothesis Hiter : ev iter sc = (Val itv, sc).
+    Hypothesis Hitems : iter_items itv = ItItems items.
+    Hypothesis Hfresh : sget sc (lower id) = None.
+    Hypothesis Hifs : forall it, List.In it items ->
+      eval_ifs ev ifs (sset sc (lower id) it) = (inl (fc it), sset sc (lower id) it).
+    Hypothesis Helt : forall it, List.In it items -> fc it = true ->
+      ev elt (sset sc (lower id) it) = (Val (fe it), sset sc (lower id) it).
+    Let selected := map fe (filter fc items).
+    Let gens : list comp := [(EName id, iter, ifs)].
+
+    (* [elt for var in iter if ifs]  =  map / filter *)
+    Lemma listcomp_is_filter_map : ev (EComp ListComp elt gens) sc = (Val (VList selected), sc).
+    Proof.
+      cbn [eval]. unfold gens.
+      destruct (run_loop_single step_list id iter ifs elt sc itv items fc fe Hiter Hitems Hfresh Hifs Helt []) as [H1 H2].
+      fold selected in H1, H2. rewrite feed_step_list in H1, H2. specialize (H2 _ eq_refl).
+      destruct (run_loop ev elt step_list [(EName id, iter, ifs)] [] sc) as [r sc']. cbn [fst snd] in *. subst.
+      cbn [fst snd wrap]. now rewrite app_nil_r, rev_involutive.
+    Qed.
+
+    Lemma len_listcomp : ev (ECall (EName "len") [EComp ListComp elt gens] []) sc = (Val (VInt (Z.of_nat (length selected))), sc).
+    Proof.
+      rewrite eval_len, listcomp_is_filter_map. reflexivity.
+    Qed.
+
+    Lemma any_generator :
+      fst (ev (ECall (EName "any") [EComp GeneratorExp elt gens] []) sc) = Val (VBool (existsb truthy selected)).
+    Proof.
+      cbn [eval eval_call]. name_tests. cbn [consume finish_bool]. unfold gens.
+      destruct (run_loop_single step_any id iter ifs elt sc itv items fc fe Hiter Hitems Hfresh Hifs Helt false) as [H1 _].
+      fold selected in H1. rewrite feed_step_any in H1.
+      destruct (run_loop ev elt step_any [(EName id, iter, ifs)] false sc) as [r sc']. cbn [fst] in H1. subst.
+      destruct (existsb truthy selected); reflexivity.
+    Qed.
+
+    Lemma all_generator :
+      fst (ev (ECall (EName "all") [EComp GeneratorExp elt gens] []) sc) = Val (VBool (forallb truthy selected)).
+    Proof.
+      cbn [eval eval_call]. name_tests. cbn [consume finish_bool]. unfold gens.
+      destruct (run_loop_single step_all id iter ifs elt sc itv items fc fe Hiter Hitems Hfresh Hifs Helt true) as [H1 _].
+      fold selected in H1. rewrite feed_step_all in H1.
+      destruct (run_loop ev elt step_all [(EName id, iter, ifs)] true sc) as [r sc']. cbn [fst] in H1. subst.
+      destruct (forallb truthy selected); reflexivity.
+    Qed.
+
+    Lemma sum_generator :
+      fst (ev (ECall (EName "sum") [EComp GeneratorExp elt gens] []) sc) =
+      match feed step_sum (VInt 0) selected with SCont v | SStop v => Val v | SFail o => wrap o end.
+    Proof.
+      cbn [eval eval_call]. name_tests. cbn [consume finish_bool]. unfold gens.
+      destruct (run_loop_single step_sum id iter ifs elt sc itv items fc fe Hiter Hitems Hfresh Hifs Helt (VInt 0)) as [H1 _].
+      fold selected in H1.
+      destruct (run_loop ev elt step_sum [(EName id, iter, ifs)] (VInt 0) sc) as [r sc']. cbn [fst] in H1. subst.
+      destruct (feed step_sum (VInt 0) selected); reflexivity.
+    Qed.
+
+    Lemma next_generator dflt dv :
+      const_outcome dflt = Val dv ->
+      fst (ev (ECall (EName "next") [EComp GeneratorExp elt gens; EConst dflt] []) sc) =
+      Val (match selected with x :: _ => x | [] => dv end).
+    Proof.
+      intros Hd. cbn [eval eval_call]. name_tests. unfold gens. rewrite Hd. cbn [wrap fst snd].
+      destruct (run_loop_single step_next id iter ifs elt sc itv items fc fe Hiter Hitems Hfresh Hifs Helt None) as [H1 _].
+      fold selected in H1. rewrite feed_step_next in H1.
+      destruct (run_loop ev elt step_next [(EName id, iter, ifs)] None sc) as [r sc']. cbn [fst] in H1. subst.
+      destruct selected; reflexivity.
+    Qed.
+  End Single.
 End Laws.
 
 (* strip_suffix: "remove the suffix if present".  The code slices text[:-len(suffix)], which for an empty
